@@ -161,6 +161,15 @@ func Compile(src string, params map[string]string) (sql string, err error, o Out
 	return
 }
 
+// CompileZero calls (&CompileOptions{}).Compile: non-nil options whose
+// parameter map is nil.
+func CompileZero(src string) (sql string, err error, o Out) {
+	steps = 0
+	defer guard(&o)
+	sql, err = (&pql.CompileOptions{}).Compile(src)
+	return
+}
+
 // Parse calls parser.Parse under the monitor.
 func Parse(src string) (stmts []parser.Statement, err error, o Out) {
 	steps = 0
